@@ -305,10 +305,19 @@ def join(vc, sep, lst):
             raise Unsupported("join over list with two-sided presence")
         if type(v) is StructStr:
             raise Unsupported("join over structured strings")
-        check_chunk(sep, v, vc)
         g = vc.m.find(pres.l)
         if g is vc.F:
             continue
+        if type(v) is U and g is not vc.T:
+            # only the alternatives that can occur where the element is present matter
+            keep = []
+            for ag, av in v.alts:
+                x = vc.m.AND_S(g, ag)
+                if x is vc.F or (x.sig == 0 and x.known is None and vc.m.is_sat(x, "feasible") is False):
+                    continue
+                keep.append((ag, av))
+            v = vc.mk_union(keep, sweep=False) if len(keep) != len(v.alts) else v
+        check_chunk(sep, v, vc)
         chunks.append((g, v))
     return StructStr(sep, chunks)
 
